@@ -156,8 +156,9 @@ pub fn cut_family(id0: usize, rng: &mut Rng, out: &mut Vec<String>) {
         // a body larger than the buffering threshold (streamed), cut inside it too
         let mut r = g::AReq::get("/big");
         r.method = "POST".into();
-        let blen = *rng.pick(&[1100usize, 1500, 3000]);
-        let f = if rng.chance(1, 3) { g::Framing::Chunked } else { g::Framing::Len };
+        // ... and bodies at the threshold itself: 1024 bytes are still buffered before delivery
+        let blen = *rng.pick(&[1023usize, 1024, 1024, 1025, 1100, 1500, 3000]);
+        let f = if blen > 1025 && rng.chance(1, 3) { g::Framing::Chunked } else { g::Framing::Len };
         g::set_body(rng, &mut r, f, blen);
         let a = g::rich_action(0, rng, blen, true);
         let reqs = vec![g::AReq::get("/first"), r, g::AReq::get("/last")];
@@ -291,7 +292,10 @@ pub fn mt_family(id0: usize, rng: &mut Rng, out: &mut Vec<String>) {
     no_panic_script(&mut base);
     let mut c = ctl(base);
     c.handlers = if rng.chance(2, 3) {
-        Handlers::Threads((0..n).map(|_| *rng.pick(&[0u64, 0, 5, 50, 500, 5000])).collect())
+        // now and then one handler that takes seconds (virtual time): the later responses wait for it,
+        // however long, and nothing else
+        let slow = if rng.chance(1, 6) { Some(rng.below(n)) } else { None };
+        Handlers::Threads((0..n).map(|i| if Some(i) == slow { *rng.pick(&[5_500_000u64, 11_000_000]) } else { *rng.pick(&[0u64, 0, 5, 50, 500, 5000]) }).collect())
     } else {
         // one thread holds all n and answers them in arrival order (answering out of order on a
         // single thread waits for itself by design: see the quantifier of C01)
@@ -417,6 +421,12 @@ pub fn ahead_family(id0: usize, rng: &mut Rng, out: &mut Vec<String>) {
         } else if rng.chance(1, 4) {
             // Connection options that neither close nor upgrade leave an HTTP/1.1 connection open
             r.hdrs.push((verif_harness::recase(rng, "Connection"), (*rng.pick(&["TE", "foo", "TE, X-Hop"])).into()));
+        }
+        // connection options split over two fields: the first field decides, and it says nothing of an upgrade
+        if r.ver == (1, 1) && !r.hdrs.iter().any(|(n, _)| n.eq_ignore_ascii_case("connection")) && rng.chance(1, 6) {
+            r.hdrs.push((verif_harness::recase(rng, "Connection"), "keep-alive".into()));
+            r.hdrs.push((verif_harness::recase(rng, "Connection"), (*rng.pick(&["Upgrade", "upgrade", "x-hop"])).into()));
+            r.hdrs.push(("Upgrade".into(), "websocket".into()));
         }
         // heads that are large together, small each
         if big_heads || rng.chance(1, 8) {
